@@ -120,6 +120,39 @@ fn k_band_quantile_argument_all_p() {
     kani::cover!(p < 1e-300, "reachable: tiny p");
 }
 
+/// C14, f32, for ALL probabilities in (0,1): the quantile level is formed in f64 from the exactly widened p
+/// ((p as f64 + 1) / 2), not in single precision
+#[kani::proof]
+#[kani::unwind(4)]
+#[kani::stub(distrs::StudentsT::ppf, ppf_stub)]
+fn k_band_quantile_argument_all_p_f32() {
+    let p: f32 = kani::any();
+    kani::assume(p > 0.0 && p < 1.0);
+    unsafe {
+        PPF_RET = 2.0;
+        PPF_CALLS = 0;
+    }
+    let dof: usize = kani::any();
+    kani::assume(dof >= 1 && dof <= 64);
+    let st = FitStatistics::<SeparableModel<f32>> {
+        covariance_matrix: DMatrix::from_element(1, 1, 1.0),
+        weighted_residuals: DVector::from_element(1, 0.0),
+        reduced_chi2: 1.0,
+        linear_coefficient_count: 1,
+        degrees_of_freedom: dof,
+        nonlinear_parameter_count: 0,
+        unscaled_confidence_sigma: DVector::from_column_slice(&[1.0f32]),
+    };
+    let r = st.confidence_band_radius(p);
+    unsafe {
+        assert!(PPF_CALLS == 1);
+        assert!(PPF_ARGS.0 == (p as f64 + 1.0) / 2.0);
+        assert!(PPF_ARGS.1 == dof as f64);
+    }
+    assert!(r.nrows() == 1 && r[0] == 2.0f32);
+    kani::cover!(p > 0.999, "reachable: p close to 1");
+}
+
 /// non-decreasing in p given a non-decreasing quantile: radius = t * sigma with sigma >= 0 (f32 multiplier)
 #[kani::proof]
 fn k_band_monotone_in_t_f32() {
